@@ -27,7 +27,28 @@ fn oracle(c: &Case, st: &mut Stats) -> Result<(), String> {
     let a = match prog::make_arch(&c.program) {
         Ok(a) => a,
         Err(e) if e.starts_with("HARNESS") => return Err(e),
-        Err(_) => return Ok(()),
+        Err(_) => {
+            // the writer refused a valid call (C01 judges that): every flush() that returned Ok before the failure
+            // still made its promise, so the snapshots taken up to there are judged
+            let res = prog::resolve(&c.program);
+            let keys = c.program.keys();
+            let (bytes, flush_lens, flush_models, _err) = prog::build_partial(&res, &keys.publics);
+            st.label("writer failed later: flushes before the failure are still judged");
+            let header_len = match crate::refimpl::parse_header(&bytes) {
+                Ok(h) => h.len,
+                Err(_) => return Ok(()),
+            };
+            let n = flush_models.len().min(flush_lens.len());
+            prog::Arch {
+                res,
+                bytes,
+                reader_keys: c.program.reader_keys(),
+                header_len,
+                info: prog::BuildInfo { sym_key: [0; 32], nonce: [0; 8], flush_models: flush_models[..n].to_vec() },
+                flush_lens: flush_lens[..n].to_vec(),
+                boundaries: Vec::new(),
+            }
+        }
     };
     let ln = prog::layers_name(a.res.layers);
     st.label(format!("layers={ln}"));
